@@ -3,7 +3,7 @@
    the rounds, the theorem that every run of the model satisfies the property oracle,
    the start-up conditions and the bound in real / integer arithmetic. *)
 From Coq Require Import ZArith List Bool Lia Reals Lra Psatz.
-From ST Require Import Base.Ints Base.F64 Base.Sorting Model.NtpTime Model.Ftm Model.Sync.
+From ST Require Import Base.Ints Base.F64 Base.Sorting Model.NtpTime Model.Units Model.Ftm Model.Sync.
 From Flocq Require Import Core.Core IEEE754.BinarySingleNaN.
 Import ListNotations.
 Open Scope Z_scope.
@@ -873,3 +873,7 @@ Proof.
   rewrite (dabs_abs po Hn Ipo). destruct (c_cutoff cfg <? Z.abs po) eqn:E; [lia|].
   rewrite andb_false_r. destruct nref; reflexivity.
 Qed.
+
+(* clocks.UnknownDrift (configured drift 0): Drift reports MaxInt64, whatever the interval *)
+Lemma unknown_drift d : Units.sysclk_drift 0 d = max_i64.
+Proof. unfold Units.sysclk_drift. replace (feq (dur_seconds 0) fzero) with true by (vm_compute; reflexivity). reflexivity. Qed.
